@@ -184,7 +184,7 @@ func HarnessC09AllocateTokenBucket() {
 // with arbitrary int32 limits, error strings, stale request times) leaves the installed limit within [0, global];
 // after an error reply it is at least the local limit; an accepting reply installs the server's value clamped to
 // [reserve, global].
-// verif:bounds 0 <= local <= global <= 2^30; k = 1..2 (quick) / 3 (thorough) replies, each symbolic over {accept, refuse, error, RequestIDTooOld} with arbitrary int32 limit and request time; meter readings arbitrary in [0, global]
+// verif:bounds 0 <= local <= global <= 2^30; k = 1..3 replies, each symbolic over {accept, refuse, error, RequestIDTooOld} with arbitrary int32 limit; request times increasing (quick) / arbitrary int64 (thorough); meter readings arbitrary in [0, global]
 func HarnessC09CountMaxInflight() {
 	local := nondetInt32("local")
 	global := nondetInt32("global")
@@ -205,7 +205,7 @@ func HarnessC09CountMaxInflight() {
 	}
 	inst, _ := c09InstalledMax(f.remote)
 	vassert(inst >= 0 && inst <= global, "C09/count-initial-limit-outside-global")
-	k := nondetRange("replies", 1, vbound(2, 3))
+	k := nondetRange("replies", 1, 3)
 	for i := 0; i < k; i++ {
 		res := &proxyv1alpha1.RateLimitAcquireResult{FlowControl: "fc", Accept: nondetBool("accept", i), Limit: nondetInt32("limit", i)}
 		switch nondetRange("errkind", 0, 2, i) {
@@ -215,7 +215,13 @@ func HarnessC09CountMaxInflight() {
 			res.Error = "connection refused"
 		}
 		wasUnavailable := w.serverUnavailable == 1
-		w.SetLimit(&AcquireResult{result: res, requestTime: nondetInt64("time", i)})
+		// request times: increasing (quick tier); arbitrary, i.e. also stale and reordered replies (thorough tier)
+		t := int64(i + 1)
+		if vbound(0, 1) == 1 {
+			t = nondetInt64("time", i)
+		}
+		fresh := !(t > 0 && t <= w.lastAcquireTime)
+		w.SetLimit(&AcquireResult{result: res, requestTime: t})
 		inst, ok := c09InstalledMax(f.remote)
 		vassert(ok, "C09/remote-limiter-installed")
 		if ok {
@@ -223,6 +229,19 @@ func HarnessC09CountMaxInflight() {
 			vassert(inst <= global, "C09/count-installed-above-global")
 			if res.Error == "connection refused" && !wasUnavailable && w.serverUnavailable == 1 {
 				vassert(inst >= local, "C09/count-error-falls-below-local-limit")
+			}
+			if fresh && res.Error == "" && res.Accept {
+				// the server answered and accepted: its limit (clamped to [reserve, global]) is what is enforced now,
+				// also right after a failure period
+				want := res.Limit
+				if want < w.reserve {
+					want = w.reserve
+				}
+				if want > global {
+					want = global
+				}
+				vassert(inst == want, "C09/count-accepted-limit-does-not-take-effect")
+				vassert(w.serverUnavailable == 0, "C09/count-still-marked-unavailable-after-success")
 			}
 		}
 	}
